@@ -6,10 +6,22 @@
     keys are two views ([priv], [pub]) of the same name, so that the BIP32
     law "the public key of the private child is the public child of the
     public key" holds by construction for unhardened steps.  Which bytes a
-    path denotes (HMAC-SHA512, secp256k1, btcsuite's legacy rule for hardened
-    steps) is the business of the harness' independent oracle
-    (harness/internal/hdoracle), which maps every real key back to such a
-    name.
+    path denotes (HMAC-SHA512, secp256k1) is the business of the harness'
+    independent oracle (harness/internal/hdoracle), which maps every real key
+    back to such a name.
+
+    HARDENED steps exist in two variants - BIP32's and btcsuite's legacy rule
+    (hdkeychain.DeriveNonStandard on a key whose leading zero bytes were
+    dropped by the derivation that made it) - which give different children
+    exactly when the parent private key has a leading zero byte.  A name
+    [root / path] denotes the key the SPECIFICATION assigns to the path: the
+    rule of every hardened step is the one of [spec_rule] (the table of
+    harness/internal/hdoracle/spec.go, where the reasons are given).  What
+    hdkeychain computes depends on how it HOLDS the parent ([width]); the
+    section [key_algebra] makes the divergence an explicit parameter [lz]
+    ("this private key has a leading zero byte") of the derivation function
+    [ckd]: using the other rule than the specified one below such a key yields
+    a key with another name ([off_spec]), never the child.
 
     No proofs here beyond the one-line law; executable definitions only. *)
 From Verif Require Import Base.Prelude.
@@ -24,7 +36,9 @@ Definition step := (N * bool)%type.
 Inductive kroot :=
 | RSeed (s : N)          (* the master node hdkeychain.NewMaster(seed) *)
 | RXpub (x cn : N)       (* an imported account xpub [x]; [cn] = its ChildIndex() *)
-| RImp (k : N).          (* an imported WIF private key *)
+| RImp (k : N)           (* an imported WIF: private scalar AND its "compressed public key" flag *)
+| RImpPub (k : N)        (* a public key imported without its private key *)
+| ROff (r : kroot).      (* NOT a key of the specification: made below root [r] with the wrong hardened rule *)
 
 Record skey := mkKey { k_root : kroot; k_path : list step }.
 
@@ -60,6 +74,7 @@ Definition addr_skey (acct : skey) (branch index : N) : skey :=
   child (child acct branch false) index false.
 Definition xpub_key (x cn : N) : skey := {| k_root := RXpub x cn; k_path := [] |}.
 Definition imp_key (k : N) : skey := {| k_root := RImp k; k_path := [] |}.
+Definition imp_pub_key (k : N) : skey := {| k_root := RImpPub k; k_path := [] |}.
 
 (** ExtendedKey.ChildIndex(): the raw uint32 child number of the last step. *)
 Definition child_num (k : skey) : N :=
@@ -68,21 +83,88 @@ Definition child_num (k : skey) : N :=
   | [] => match k_root k with RXpub _ cn => cn | _ => 0 end
   end.
 
-(** Extended keys as hdkeychain holds them: private, or neutered. *)
-Inductive xkey := XPriv (k : skey) | XPub (k : skey).
-Definition x_is_private (x : xkey) : bool := match x with XPriv _ => true | XPub _ => false end.
-Definition x_skey (x : xkey) : skey := match x with XPriv k | XPub k => k end.
-Definition x_neuter (x : xkey) : xkey := XPub (x_skey x).
-
-(** ExtendedKey.DeriveNonStandard(i) with the raw uint32 child number:
-    [None] = ErrDeriveHardFromPublic.  (Invalid children, probability 2^-127
-    per step, are not modelled: an admissible step always succeeds.) *)
 Definition is_hardened (i : N) : bool := hardened_start <=? i.
+(** the child with raw uint32 child number [i], as the specification names it *)
 Definition raw_child (k : skey) (i : N) : skey :=
   if is_hardened i then child k (i - hardened_start) true else child k i false.
+
+(* ------------------------------------------- the two hardened-derivation rules *)
+
+(** [Std] = BIP32: HMAC over 0x00 || ser256(k) || ser32(i).
+    [Leg] = btcsuite's legacy rule: 0x00 || minimal big-endian bytes of k ||
+    zero fill || ser32(i).  Equal unless k has a leading zero byte. *)
+Inductive rule := Std | Leg.
+Definition rule_eqb (a b : rule) : bool :=
+  match a, b with Std, Std | Leg, Leg => true | _, _ => false end.
+
+(** How hdkeychain holds the bytes of a private extended key: all 32 (made by
+    NewMaster or parsed from its base58 string) or with the leading zero bytes
+    dropped (the result of a derivation; IsAffectedByIssue172 when shorter). *)
+Inductive width := Full | Short.
+
+(** ExtendedKey.DeriveNonStandard copies the held bytes to the left:
+    on a full-width key that IS BIP32's layout, on a shortened key the legacy one. *)
+Definition rule_of_width (w : width) : rule := match w with Full => Std | Short => Leg end.
+
+(** The rule the wallet MUST use for the hardened child [i] (raw child number)
+    of the key named [k] - hdoracle.WalletRule, see spec.go for the reasons:
+      m -> purpose'            BIP32   (the master key is always at full width)
+      purpose' -> coin'        legacy  (the purpose key only exists as a derivation result)
+      coin' -> 0'              legacy  (account 0 is made with its scope, from the derived coin-type key)
+      coin' -> a', a >= 1      BIP32   (later accounts come from the coin-type key read back from the file)
+      account' -> branch       BIP32   (the account key is always read back)
+      branch -> index          legacy  (the branch key only exists as a derivation result)
+    Existing wallets were derived this way; a wallet recovered from the seed
+    must find their addresses. *)
+Definition spec_rule (k : skey) (i : N) : rule :=
+  match k_root k with
+  | RSeed _ =>
+    match k_path k with
+    | [] => Std
+    | [_] => Leg
+    | [_; _] => if i =? hardened_start then Leg else Std
+    | [_; _; _] => Std
+    | _ => Leg
+    end
+  | _ => Std
+  end.
+
+(** the name of what comes out when the other rule is used below a key with a leading zero *)
+Definition off_spec (k : skey) (i : N) : skey :=
+  {| k_root := ROff (k_root k); k_path := k_path (raw_child k i) |}.
+
+Section key_algebra.
+  (** [lz k]: the private key named [k] has a leading zero byte.  A parameter:
+      which keys have is decided by HMAC-SHA512 (about one key in 256). *)
+  Variable lz : skey -> bool.
+
+  (** CKDpriv under rule [r] of the key named [k], raw child number [i] *)
+  Definition ckd (r : rule) (k : skey) (i : N) : skey :=
+    if is_hardened i && lz k && negb (rule_eqb r (spec_rule k i)) then off_spec k i else raw_child k i.
+End key_algebra.
+
+(** The manager model is evaluated with the worst case: every key may have a
+    leading zero byte, so ANY hardened step made with another rule than the
+    specified one leaves the specification's key tree (MgrProofs.ckd_all_lz:
+    the result is the child for every [lz] iff it is for this one). *)
+Definition all_lz : skey -> bool := fun _ => true.
+
+(** Extended keys as hdkeychain holds them: private (with the width of the
+    stored bytes), or neutered. *)
+Inductive xkey := XPriv (k : skey) (w : width) | XPub (k : skey).
+Definition x_is_private (x : xkey) : bool := match x with XPriv _ _ => true | XPub _ => false end.
+Definition x_skey (x : xkey) : skey := match x with XPriv k _ | XPub k => k end.
+Definition x_neuter (x : xkey) : xkey := XPub (x_skey x).
+(** NewKeyFromString(key.String()): what a key becomes when it is stored and read back *)
+Definition x_reparse (x : xkey) : xkey := match x with XPriv k _ => XPriv k Full | XPub k => XPub k end.
+
+(** ExtendedKey.DeriveNonStandard(i) with the raw uint32 child number:
+    [None] = ErrDeriveHardFromPublic.  The child of a private key is held
+    shortened.  (Invalid children, probability 2^-127 per step, are not
+    modelled: an admissible step always succeeds.) *)
 Definition x_derive (x : xkey) (i : N) : option xkey :=
   match x with
-  | XPriv k => Some (XPriv (raw_child k i))
+  | XPriv k w => Some (XPriv (ckd all_lz (rule_of_width w) k i) Short)
   | XPub k => if is_hardened i then None else Some (XPub (raw_child k i))
   end.
 
@@ -122,6 +204,8 @@ Definition step_eq_dec : forall a b : step, {a = b} + {a <> b}.
 Proof. decide equality; [apply Bool.bool_dec | apply N.eq_dec]. Defined.
 Definition kroot_eq_dec : forall a b : kroot, {a = b} + {a <> b}.
 Proof. decide equality; apply N.eq_dec. Defined.
+Definition rule_eq_dec : forall a b : rule, {a = b} + {a <> b}.
+Proof. decide equality. Defined.
 Definition skey_eq_dec : forall a b : skey, {a = b} + {a <> b}.
 Proof. decide equality; [apply (list_eq_dec step_eq_dec) | apply kroot_eq_dec]. Defined.
 Definition pubkey_eq_dec : forall a b : pubkey, {a = b} + {a <> b}.
